@@ -25,6 +25,7 @@ mod names;
 mod packed;
 mod tde;
 mod vser;
+mod widths;
 mod x3;
 
 use domain::{Schema, Verdict, OPAQUE_RELATION_TYPES};
@@ -97,6 +98,8 @@ pub struct TypeOps {
     pub parsed: fn(&Ctx, &TypeOps, &[u8], &str, bool, Option<&FontArgs>, &mut Local) -> bool,
     /// "FontRead" or the name of the hand adaptor
     pub reader: &'static str,
+    /// count-width family: the all-default value with the named array fields forced to n elements
+    pub bound_case: fn(&Ctx, &TypeOps, &widths::Group, usize, bool, &mut Local),
 }
 
 impl TypeOps {
@@ -123,6 +126,7 @@ pub fn ops_with<T: Owned, R: Reader<T>>(
         x2_one: x2_one::<T, R>,
         parsed: parsed::<T, R>,
         reader,
+        bound_case: widths::bound_case::<T, R>,
     }
 }
 
@@ -164,6 +168,8 @@ pub struct Local {
     capped: Vec<String>,
     machinery: Vec<String>,
     k_completed: usize,
+    /// count-width family: cases rejected by a constraint other than the length bound
+    other_constraints: BTreeSet<String>,
 }
 
 impl Local {
@@ -182,6 +188,7 @@ impl Local {
         self.unjudged_panics.extend(o.unjudged_panics);
         self.predicate_disagreements.extend(o.predicate_disagreements);
         self.samples.extend(o.samples);
+        self.other_constraints.extend(o.other_constraints);
         self.capped.extend(o.capped);
         self.machinery.extend(o.machinery);
     }
@@ -1010,6 +1017,14 @@ fn body(run: &Run, replay: Option<&Value>) {
             }
             return;
         }
+        if case["source"].as_str() == Some("count_width") {
+            let mut l = Local::default();
+            widths::replay(&ctx, &reg, case, &mut l);
+            for (k, v) in &l.counters {
+                println!("  {k} = {v}");
+            }
+            return;
+        }
         if matches!(case["source"].as_str(), Some("name_family") | Some("text_family")) {
             let mut l = Local::default();
             if case["source"].as_str() == Some("name_family") {
@@ -1235,6 +1250,12 @@ fn body(run: &Run, replay: Option<&Value>) {
         total.lock().unwrap().merge(l);
     }
 
+    // ---- source 6: count-width boundary family ---------------------------------------------------
+    if want("widths") {
+        let l = widths::run_family(&ctx, &reg);
+        total.lock().unwrap().merge(l);
+    }
+
     // ---- source 3: hand-written packed point numbers / packed deltas, structured families ----------
     if want("packed") {
         let l = packed::run_families(run);
@@ -1258,6 +1279,7 @@ fn body(run: &Run, replay: Option<&Value>) {
     for m in &l.machinery {
         run.machinery_error(m);
     }
+    run.extra("count_width_cases_not_judged_other_constraint", json!(l.other_constraints));
     run.extra("stability_only_relations_derived_from_schema", json!(l.stability_reasons));
     run.extra("unjudged_panics_and_construction_failures", json!(l.unjudged_panics));
     run.extra("corpus_values_rejected_by_schema_predicates_or_by_validate", json!(l.predicate_disagreements));
